@@ -19,7 +19,7 @@ def RULE(tier):
     k = 3 if tier == "quick" else 4
     return (
         "The outbound journal is produced by driving a real logged-on endpoint (both roles): each slot is an application "
-        "message (with / without groups; bodies rotating over application-set routing fields of the standard header (SenderSubID 50, TargetSubID 57, OnBehalfOfCompID 115), fields like 835=0, 135=5, 235=2 and texts ending in '35=A', which look like a session MsgType field to a byte scanner), a session message (Heartbeat, ResendRequest, TestRequest, Logon, Logout), an "
+        "message (with / without groups; bodies rotating over application-set routing fields of the standard header (SenderSubID 50, TargetSubID 57, OnBehalfOfCompID 115), fields like 835=0, 135=5, 235=2 and texts ending in '35=A', which look like a session MsgType field to a byte scanner), a session message (Heartbeat, ResendRequest, TestRequest, Logon, Logout, XMLnonFIX), an "
         "application message the endpoint's should_replay declines, a session-level Reject (FREE kind), a hole (row deleted, "
         f"or numbers skipped with set_seq_num). EXHAUSTIVELY all journals of <= {k} slots over the slot kinds x ALL "
         "(BeginSeqNo, EndSeqNo) with BeginSeqNo in [-1, L+3], EndSeqNo in {0} U [BeginSeqNo-1, L+3], issued one after the "
@@ -99,8 +99,11 @@ class Driver:
             r = b.w.call(ep.send_msg(m))
             k = "app" if kind != "declined" else "declined"
         elif kind == "hb":
-            sel = self.uid % 4
-            if sel == 0:
+            sel = self.uid % 5
+            if sel == 4:
+                # XMLnonFIX (35=n): a session-level message by the library's own protocol table (session_message_types) and by FIX
+                r = b.w.call(ep.send_msg(FIXMessage(FMsg.XMLNONFIX, {212: 4, 213: "<x/>"})))
+            elif sel == 0:
                 r = b.w.call(ep.send_msg(FIXMessage(FMsg.HEARTBEAT)))
             elif sel == 1:
                 r = b.w.call(ep.send_msg(FIXMessage(FMsg.LOGON, {98: 0, 108: 30})))
